@@ -905,6 +905,19 @@ func FuzzScan(f *testing.F) {
 	f.Add(seedFile.Encode().Data)
 	seedFile.Blocks[0].Zlib = true
 	f.Add(seedFile.Encode().Data)
+	// more structure for the mutator to work on: several blocks, non-canonical
+	// field order, header without compression, and hostile framing constants
+	two := witnessFile()
+	two.Blocks = append(two.Blocks, seedFile.Blocks[0], witnessFile().Blocks[0])
+	two.Blocks[1].Exotic = 7
+	f.Add(two.Encode().Data)
+	two.Header.Zlib = false
+	two.Header.Exotic = 3
+	f.Add(two.Encode().Data)
+	enc := two.Encode()
+	f.Add(enc.Data[:enc.Blocks[1].HeaderAt])
+	f.Add(append(append([]byte{}, enc.Data[:enc.Blocks[0].Start]...), 0, 1, 0, 0))
+	f.Add(append(append([]byte{}, enc.Data[:enc.Blocks[0].Start]...), 0x80, 0, 0, 0))
 	f.Add([]byte{0, 0, 0, 0})
 	f.Add([]byte{0xff, 0xff, 0xff, 0xff})
 	f.Fuzz(func(t *testing.T, data []byte) {
